@@ -4,6 +4,10 @@ let channels : (string * ((string * string) list -> string)) list = [
   ("art", Chan_art.run);
   ("flags", Chan_flags.run_flags);
   ("jprops", Chan_flags.run_jprops);
+  ("llpcomb", Chan_llp.run_comb);
+  ("llpranks", Chan_llp.run_ranks);
+  ("llpinv", Chan_llp.run_inv);
+  ("llprun", Chan_llp.run_run);
 ]
 
 let () =
